@@ -28,6 +28,23 @@ TESTERS = [("agilerl.algorithms.dqn", "DQN"), ("agilerl.algorithms.cqn", "CQN"),
 
 
 def run(ck: Check, repo: Repo) -> None:
+    # "a population of the size it was given with distinct indices ... the best agent is carried unchanged into the next generation" is produced by
+    # TournamentSelection.select, which every training loop calls: the C05 obligations about size, fresh indices and the elite are taken over
+    # (nested Check first: it resets the per-run pattern environments)
+    from dataclasses import replace
+    from . import c05
+    sub = Check("C05", ck.tier, ck.repo_root)
+    sub.known = []
+    c05.run(sub, repo)
+    ck.rule("C20.10", "selection inside the training loops keeps the population size, gives every non-elite member a fresh index and carries the elite over first "
+                      "(obligations of C05.3, C05.4 and C05.5, shared with the C05 check)")
+    taken = [replace(o, rule="C20.10") for o in sub.obs if o.rule in ("C05.3", "C05.4", "C05.5")]
+    if len(taken) < 8:
+        raise AnalysisError(f"C20.10: only {len(taken)} obligations taken over from C05.3-5")
+    for o in taken:
+        if o.status == "violated" and ck._known_entry(o) is not None:
+            o.status = "known"
+    ck.obs.extend(taken)
     ck.not_decided += ["running to completion on real environments (runtime behaviour)", "that evaluation scores are computed correctly"]
     ck.trusted += ["ReplayBuffer.sample returns a TensorDict keyed obs/action/reward/next_obs/done (checked under C09); MultiAgentReplayBuffer.sample returns a 5-tuple",
                    f"isinstance() against a runtime_checkable Protocol uses inspect.getattr_static on Python >= 3.12 (this interpreter: {sys.version_info.major}.{sys.version_info.minor})"]
@@ -371,6 +388,14 @@ def _fitness(ck: Check, repo: Repo) -> None:
         returned = {r.value.elts[1].id for r in walk_no_nested(fn.node) if isinstance(r, ast.Return) and isinstance(r.value, ast.Tuple) and len(r.value.elts) == 2
                     and isinstance(r.value.elts[1], ast.Name)}
         ck.ob("C20.5", fn, apps[0] if apps else fn.node, len(fit) == 1 and len(apps) == 1 and apps[0].func.value.id in returned, f"{lname}: the generation's fitnesses are recorded once")
+        # ... into a history that starts empty: one entry per generation, nothing else
+        if apps and isinstance(apps[0].func.value, ast.Name):
+            hist = apps[0].func.value.id
+            inits = [a for a in walk_no_nested(fn.node) if isinstance(a, ast.Assign) and any(isinstance(t, ast.Name) and t.id == hist for t in a.targets)]
+            okh = bool(inits) and all(isinstance(a.value, ast.List) and not a.value.elts for a in inits)
+            ck.ob("C20.5", fn, inits[0] if inits else fn.node, okh, f"{lname}: the fitness history starts empty (it holds one entry per generation and nothing else)",
+                  detail=f"`{short(inits[0], 80)}`: the returned history starts with entries that are not fitness evaluations" if inits and not okh else "",
+                  construct=f"{lname}: fitness history initialisation")
 
 
 # ------------------------------------------------------------------------------------------------ C20.6
